@@ -21,17 +21,19 @@ type SwitchCall struct {
 }
 
 type CaseC05 struct {
-	Clause string                 `json:"clause"` // a | b | c | d
-	Text   string                 `json:"text,omitempty"`
-	Attr   string                 `json:"attr,omitempty"`
-	Mixed  string                 `json:"mixed,omitempty"`
-	Enc    int                    `json:"enc"` // 0 Map.Xml 1 Map.XmlIndent 2 MapSeq.Xml 3 MapSeq.XmlIndent
-	Doc    *XElem                 `json:"doc,omitempty"`
-	Calls  []SwitchCall           `json:"calls,omitempty"`
-	Value  map[string]interface{} `json:"value,omitempty"`          // clause e: any JSON-shaped Map, any root shape
-	Root   string                 `json:"root,omitempty"`           // clause e: explicit root tag ("" = none)
-	Sloppy bool                   `json:"sloppy_decoder,omitempty"` // clause c: mxj.CustomDecoder is a non-strict decoder (an option for READING sloppy XML)
-	Skip   int                    `json:"skip,omitempty"`           // clause b: a skip-tag function is set (1: true for every key, 2: for keys of even length); it only concerns casting
+	Clause   string                 `json:"clause"` // a | b | c | d
+	Text     string                 `json:"text,omitempty"`
+	Attr     string                 `json:"attr,omitempty"`
+	Mixed    string                 `json:"mixed,omitempty"`
+	Enc      int                    `json:"enc"` // 0 Map.Xml 1 Map.XmlIndent 2 MapSeq.Xml 3 MapSeq.XmlIndent
+	Doc      *XElem                 `json:"doc,omitempty"`
+	Calls    []SwitchCall           `json:"calls,omitempty"`
+	Value    map[string]interface{} `json:"value,omitempty"`          // clause e: any JSON-shaped Map, any root shape
+	Root     string                 `json:"root,omitempty"`           // clause e: explicit root tag ("" = none)
+	Sloppy   bool                   `json:"sloppy_decoder,omitempty"` // clause c: mxj.CustomDecoder is a non-strict decoder (an option for READING sloppy XML)
+	AttrName string                 `json:"attr_name,omitempty"`      // clauses a, c: the attribute's name ("" = a); names with a meaning in XML (xmlns:q, xmlns, href, xml:base) are attributes like any other
+	DecOpts  uint32                 `json:"dec_opts,omitempty"`       // clause e: decoder-only options in force (see applyUnrelatedOptions)
+	Skip     int                    `json:"skip,omitempty"`           // clause b: a skip-tag function is set (1: true for every key, 2: for keys of even length); it only concerns casting
 }
 
 func init() { register("C05", checkC05) }
@@ -79,6 +81,12 @@ func genC05(t *rapid.T) CaseC05 {
 	switch c.Clause {
 	case "a", "c":
 		c.Text, c.Attr, c.Mixed = genEscStr(t, "text"), genEscStr(t, "attr"), genEscStr(t, "mixed")
+		if rapid.IntRange(0, 7).Draw(t, "wkattr") == 3 {
+			c.AttrName = rapid.SampledFrom([]string{"xmlns:q", "xmlns:q", "xmlns", "href", "xml:base", "type", "id"}).Draw(t, "attrname")
+			if rapid.Bool().Draw(t, "urlvalue") {
+				c.Attr = "http://example.com/ns?a=1&b=2" + c.Attr // a value with a scheme in front, a namespace name or link as found in the wild
+			}
+		}
 		if c.Clause == "c" {
 			c.Sloppy = rapid.IntRange(0, 3).Draw(t, "sloppy") == 0
 		}
@@ -104,8 +112,9 @@ func genC05(t *rapid.T) CaseC05 {
 				return genMildStr(t, l)
 			}
 		}
-		g := VGen{Keys: xmlKeyNames, Attrs: true, Nulls: true, StringGen: gen}
+		g := VGen{Keys: append([]string{"stream", "stream"}, xmlKeyNames...), Attrs: true, Nulls: true, StringGen: gen}
 		c.Value = g.Map(t, 2)
+		c.DecOpts = genUnrelated(t)
 		if rapid.IntRange(0, 2).Draw(t, "singlelist") == 0 {
 			// the root shapes a decoded document never has: one key holding a list
 			k := rapid.SampledFrom(xmlKeyNames).Draw(t, "rk")
@@ -148,10 +157,17 @@ func tokenizes(b []byte) error {
 func hasSpecial(s string) bool { return strings.ContainsAny(s, "&<>\"'") }
 
 // values builds the Map and the MapSeq of clauses a and c.
+func (c CaseC05) attrName() string {
+	if c.AttrName == "" {
+		return "a"
+	}
+	return c.AttrName
+}
+
 func (c CaseC05) values() (mxj.Map, mxj.MapSeq) {
-	m := mxj.Map{"r": map[string]interface{}{"-a": c.Attr, "e": c.Text, "m": map[string]interface{}{"#text": c.Mixed, "c": "x"}}}
+	m := mxj.Map{"r": map[string]interface{}{"-" + c.attrName(): c.Attr, "e": c.Text, "m": map[string]interface{}{"#text": c.Mixed, "c": "x"}}}
 	ms := mxj.MapSeq{"r": map[string]interface{}{
-		"#attr": map[string]interface{}{"a": map[string]interface{}{"#text": c.Attr, "#seq": 0}},
+		"#attr": map[string]interface{}{c.attrName(): map[string]interface{}{"#text": c.Attr, "#seq": 0}},
 		"e":     map[string]interface{}{"#text": c.Text, "#seq": 0},
 		"m":     map[string]interface{}{"#seq": 1, "#text": c.Mixed, "c": map[string]interface{}{"#text": "x", "#seq": 0}},
 	}}
@@ -228,7 +244,11 @@ func checkC05(c CaseC05, info *Info) *Failure {
 		}
 		trim := func(s string) string { return strings.Trim(s, "\t\r\n ") }
 		r, _ := back["r"].(map[string]interface{})
-		gotA, _ := r["-a"].(string)
+		decodedAttr := c.attrName()
+		if i := strings.Index(decodedAttr, ":"); i >= 0 {
+			decodedAttr = decodedAttr[i+1:] // the Map decoder keys an attribute by its local name
+		}
+		gotA, _ := r["-"+decodedAttr].(string)
 		gotE, _ := r["e"].(string)
 		mm, _ := r["m"].(map[string]interface{})
 		gotM, _ := mm["#text"].(string)
@@ -280,6 +300,12 @@ func checkC05(c CaseC05, info *Info) *Failure {
 				return m.Xml(tags...)
 			}
 			return m.XmlIndent("", " ", tags...)
+		}
+		if c.DecOpts != 0 {
+			// decoder-only options in force (key folding, trimming, sequence numbers, casting, XMPP stream handling, a skip
+			// function): none of them has a say in what an ENCODER returns, with or without the validity check
+			applyUnrelatedOptions(c.DecOpts & (1<<0 | 1<<1 | 1<<2 | 1<<3 | 1<<4 | 1<<7 | 1<<8 | 1<<9 | 1<<10 | 1<<12 | 1<<15))
+			info.Class("e: decoder-only options in force")
 		}
 		x0, err0 := encode()
 		mxj.XmlCheckIsValid(true)
